@@ -290,6 +290,15 @@ var contentShapes = append(headings(), []shape{
 		// header/footer nested in an article are not page chrome: kept in every mode
 		return one(el("article", el("header", b.leaf("h1", "h1")), b.leaf("p", "p"), el("footer", b.leaf("p", "p"))))
 	}},
+	{"neutralboxes", func(b *builder) []*node {
+		// elements the traversal has no case for: the content elements inside them must still come back
+		return []*node{
+			el("dl", el("dt", raw("term")), el("dd", b.leaf("p", "dd-p"), el("ul", b.leaf("li", "dd-li")))),
+			el("figure", b.leaf("pre", "figure-pre"), el("figcaption", b.leaf("p", "figcaption-p"))),
+			el("details", el("summary", raw("more")), b.leaf("p", "details-p"), b.leaf("blockquote", "details-blockquote")),
+			el("address", b.leaf("p", "address-p")),
+		}
+	}},
 	{"noise", func(b *builder) []*node {
 		return []*node{b.script(), b.leaf("p", "p"), el("hr"), b.styleEl(), comment("Zs97 block comment"), b.leaf("p", "p")}
 	}},
@@ -706,4 +715,86 @@ func init() {
 		skeleton{name: "loose-div-span", loose: true, build: looseBeside("div", true, true)},
 		skeleton{name: "loose-section-before", loose: true, build: looseBeside("section", true, false)},
 	)
+}
+
+// ---- mixed-content containers ---------------------------------------------------------------------------
+//
+// A content element the traversal treats as one unit (blockquote, li, td, th) holding own inline text, then a
+// structured child (list, table, pre, p, div), then own inline text again (bare text, em, a, cite). Every piece
+// carries its own token.
+
+var mixedContainers = []string{"blockquote", "li", "td", "th"}
+var mixedChildren = []string{"ul", "ol", "table", "pre", "p", "div"}
+var mixedAfters = []string{"text", "em", "a", "cite"}
+
+// tokText: bare text (or a <span> when the inline variant needs several pieces) carrying a token of its own.
+func tokText(b *builder, kind string) *node {
+	pieces, tok := b.inline()
+	var n *node
+	if len(pieces) == 1 && pieces[0].tag == "" {
+		n = pieces[0]
+	} else {
+		n = el("span")
+		for _, p := range pieces {
+			n.add(p)
+		}
+	}
+	n.tok, n.kind = tok, kind
+	return n
+}
+
+func mixedShape(container, child, after string) func(b *builder) []*node {
+	return func(b *builder) []*node {
+		k := container
+		var c *node
+		switch container {
+		case "li":
+			c = b.leaf("li", "li1")
+		case "td", "th":
+			c = b.leaf(container, container+"@tbody")
+		default:
+			c = b.leaf(container, container)
+		}
+		switch child {
+		case "ul", "ol":
+			c.add(el(child, b.leaf("li", k+"/li"), b.leaf("li", k+"/li")))
+		case "table":
+			c.add(el("table", el("tr", b.leaf("td", k+"/td"), b.leaf("td", k+"/td"))))
+		case "pre":
+			c.add(b.leaf("pre", k+"/pre"))
+		case "p":
+			c.add(b.leaf("p", k+"/p"))
+		case "div":
+			c.add(el("div", b.leaf("p", k+"/div-p")))
+		}
+		var a *node
+		if after == "text" {
+			a = tokText(b, k+"/text-after")
+		} else {
+			a = el(after)
+			if after == "a" {
+				a.with("href", "#")
+				b.noA = true
+			}
+			pieces, tok := b.inline()
+			b.noA = false
+			for _, p := range pieces {
+				a.add(p)
+			}
+			a.tok, a.kind = tok, k+"/"+after+"-after"
+		}
+		// an item's own text after a directly nested list: the item (and its text) precedes the nested items in
+		// element order although this piece follows them in the source; see node.floating
+		if container == "li" && (child == "ul" || child == "ol") {
+			a.floating = true
+		}
+		c.add(a)
+		switch container {
+		case "li":
+			return one(el("ul", c, li(b, 1, nil)))
+		case "td", "th":
+			return one(el("table", el("tr", c, b.leaf("td", "td@tbody"))))
+		}
+		return one(c)
+	}
 }
